@@ -33,6 +33,10 @@ type Builder struct {
 	claimedEnds map[uint64]bool
 	// SharedEnds lets order scenarios reuse window ends on purpose
 	SharedEnds bool
+	// FarEnds: every v1 contract gets a window end from a small set far above
+	// any height the history reaches, so that expiration lists are shared (and
+	// get permuted by removals and reverts) but never expire
+	FarEnds bool
 
 	Txns   []types.Transaction
 	V2Txns []types.V2Transaction
